@@ -68,6 +68,22 @@ def CacheG.set (c : CacheG T) (k v ticks : Nat) : CacheG T × CacheOut :=
   let w := ts c1.1.timers (.set k v ticks)
   (CacheG.expire ts { c1.1 with timers := w.1 } w.2, { evicted := c1.2, expired := w.2.map (·.1) })
 
+/-- `SetWithExpire(key, value, expire)` whose jittered expiry is ≤ 0 (`expire ≤ 0`, or a sub-nanosecond product):
+`SetTimer` rejects the delay (`ErrArgument`, which `SetWithExpire` drops), so the map and the recency list are
+updated and the wheel is not told: a pending timer of the key keeps running (the new value expires on the old
+schedule), a new key gets no timer at all and stays until deleted or evicted. -/
+def CacheG.setNoTimer (c : CacheG T) (k v : Nat) : CacheG T × CacheOut :=
+  ((CacheG.lruAdd ts { c with data := ainsert c.data k v } k).1,
+   { evicted := (CacheG.lruAdd ts { c with data := ainsert c.data k v } k).2 })
+
+/-- `Take` in a cache whose (jittered) default expiry is ≤ 0 -/
+def CacheG.takeNoTimer (c : CacheG T) (k v : Nat) (fails : Bool) : CacheG T × CacheOut :=
+  match alookup c.data k with
+  | some x => ((CacheG.lruAdd ts c k).1, { result := some x })
+  | none =>
+    if fails then (c, { loaded := true })
+    else ((CacheG.setNoTimer ts c k v).1, { (CacheG.setNoTimer ts c k v).2 with loaded := true, result := some v })
+
 /-- `SetWithExpire` as it was before fixes/C16-cache-reset-subsecond-expiry.patch (kept to state the defect):
 a key already present took the `MoveTimer` path, and `MoveTimer` with a delay below one interval runs the
 expiry callback at once. -/
@@ -94,6 +110,14 @@ def CacheG.take (c : CacheG T) (k v : Nat) (fails : Bool) (ticks : Nat) : CacheG
 def CacheG.tick (c : CacheG T) : CacheG T × CacheOut :=
   (CacheG.expire ts { c with timers := (ts c.timers .tick).1 } (ts c.timers .tick).2,
    { expired := (ts c.timers .tick).2.map (·.1) })
+
+/-! The wheel runs the expiry callbacks in a goroutine of their own (`runTasks`): between the tick that takes the due
+timers out of the wheel (`CacheG.fire`) and the callbacks (`CacheG.expire`, i.e. `cache.Del(key)` per fired key) the
+user's operations go on.  `CacheG.tick` is the schedule in which nothing happens in between. -/
+
+/-- the tick itself: due timers leave the wheel; returns the fired (key, value) pairs still to be handed to `Del` -/
+def CacheG.fire (c : CacheG T) : CacheG T × List (Nat × Nat) :=
+  ({ c with timers := (ts c.timers .tick).1 }, (ts c.timers .tick).2)
 
 inductive COp where
   | set (k v ticks : Nat)
